@@ -274,6 +274,10 @@ pub fn check_type<T: Build + Spec + MemSize + 'static>(seed: u64, rounds: u64, o
     out.per_type.push((name, n_eval));
 }
 
+/// forwards the items of `inner`, reports the given size_hint whatever `inner` knows
+struct WrongHint<I> { inner: I, lo: usize, hi: Option<usize> }
+impl<I: Iterator> Iterator for WrongHint<I> { type Item = I::Item; fn next(&mut self) -> Option<I::Item> { self.inner.next() } fn size_hint(&self) -> (usize, Option<usize>) { (self.lo, self.hi) } }
+
 fn check_bulk<T: MemSize + 'static>(name: &str, xs: &[T], r: &mut Rng, out: &mut MsOut) {
     let hs = |it: &mut dyn Iterator<Item = &T>| -> u128 { it.map(|x| x.heap_size() as u128).sum() };
     let vsum = |it: &mut dyn Iterator<Item = &T>| -> u128 { it.map(|x| x.value_size() as u128).sum() };
@@ -306,6 +310,11 @@ fn check_bulk<T: MemSize + 'static>(name: &str, xs: &[T], r: &mut Rng, out: &mut
     both!(6, xs.iter().enumerate().filter(|(i, _)| (m >> (i % 64)) & 1 == 1).map(|(_, x)| x), inexact);
     both!(7, xs.iter().chain(xs.iter().rev()), inexact);
     both!(8, xs.iter().skip_while(|_| false).take_while(|_| true), inexact);
+    // iterators whose size_hint is wrong (legal in safe code; a hint is advice, the items are what counts): claims the
+    // length of the whole slice while yielding a subset, claims nothing at all, claims too little
+    both!(9, WrongHint { inner: xs.iter().enumerate().filter(|(i, _)| (m >> (i % 64)) & 1 == 1).map(|(_, x)| x), lo: xs.len(), hi: Some(xs.len()) }, inexact);
+    both!(10, WrongHint { inner: xs.iter(), lo: 0, hi: None }, inexact);
+    both!(11, WrongHint { inner: xs.iter(), lo: xs.len() / 2, hi: Some(xs.len() / 2) }, inexact);
 }
 
 /// unsized element types through references: [T], str, Path, CStr
